@@ -68,6 +68,17 @@ double potential(double prefactor_product, double sx, double sy, double sz) {
 }
 
 
+/** @brief Return the given value, or zero if rounding errors made a quantity negative that is non-negative in exact
+ *         arithmetic (a nan is returned unchanged).
+ *
+ *  @param value The value.
+ *  @return The value if it is not negative, zero otherwise.
+ */
+static double non_negative(double value) {
+    return value < 0.0 ? 0.0 : value;
+}
+
+
 /** @brief Return the required displacement in space of the active unit along the positive direction of motion parallel
  *         to the x-axis where the cumulative event rate of the potential equals the given potential change.
  *
@@ -118,7 +129,7 @@ double displacement(double prefactor_product, double sx, double sy, double sz, d
         }
         // Compute how much active unit can travel uphill with the given potential change.
         new_norm = prefactor_product / (current_potential + potential_change);
-        displacement += (sx - sqrt(new_norm * new_norm - (sy * sy + sz * sz)));
+        displacement += (sx - sqrt(non_negative(new_norm * new_norm - (sy * sy + sz * sz))));
     } else {
         // Attractive interaction
         if (sx > 0.0) {
@@ -137,7 +148,7 @@ double displacement(double prefactor_product, double sx, double sy, double sz, d
             }
         }
         new_norm = prefactor_product / (current_potential + potential_change);
-        displacement += (sx + sqrt(new_norm * new_norm - (sy * sy + sz * sz)));
+        displacement += (sx + sqrt(non_negative(new_norm * new_norm - (sy * sy + sz * sz))));
     }
     return displacement;
 }
